@@ -277,8 +277,23 @@ def build_motifs(case, pvar):
     return out
 
 
-# call-history cases: the SAME dict / tensor objects are passed to consecutive calls (updated in place)
-_SHARED = {'motifs': None}
+# call-history cases: the SAME dict / tensor objects are passed to consecutive calls (updated in place), and the FASTA /
+# MEME files of consecutive calls have the SAME path (rewritten; pyfaidx's .fai index removed so that only fimo's own
+# memory is on trial)
+_SHARED = {'motifs': None, 'dir': None}
+
+
+class _KeepDir:
+    def __init__(self, d):
+        self.d = d
+
+    def __enter__(self):
+        for f in os.listdir(self.d):
+            os.remove(os.path.join(self.d, f))
+        return self.d
+
+    def __exit__(self, *a):
+        return False
 
 
 class RealError(Exception):
@@ -303,7 +318,7 @@ def _run_real(case, seqs=None, inp=None, dim=0, counts=False, threads=None, meme
     motifs = _SHARED['motifs'] if _SHARED['motifs'] is not None else build_motifs(case, case.get('pvar'))
     snames = snames_of(case, len(seqs))
     old = numba.get_num_threads()
-    with _tmpdir() as d:
+    with (_KeepDir(_SHARED['dir']) if _SHARED['dir'] else _tmpdir()) as d:
         try:
             if threads is not None:
                 numba.set_num_threads(min(int(threads), numba.config.NUMBA_NUM_THREADS))
@@ -887,6 +902,11 @@ def gen_dyadic(rng, thorough):
                 for k in range(4):
                     if (w - 1 - j, 3 - k) < (j, k):
                         p[k][j] = p[3 - k][w - 1 - j]
+            if w % 2:                                          # the middle column must be self-complementary AND sum to 1
+                a, b = rng.choice([(0.5 - e, e), (e, 0.5 - e)])  # (columns that do not sum to 1 are outside the domain: with
+                j = w // 2                                     #  all log-odds negative an N outscores every real word, C11)
+                p[0][j] = p[3][j] = a
+                p[1][j] = p[2][j] = b
         pwms.append(p)
     wmax = max(len(p[0]) for p in pwms)
     wmin = min(len(p[0]) for p in pwms)
@@ -986,7 +1006,9 @@ def check_history(hist):
     """returns (list of (finding, message), list of per-step stats)"""
     out, stats = [], []
     store = None
+    keep = _tmpdir()
     try:
+        _SHARED['dir'] = keep.name
         for i, step in enumerate(hist['steps']):
             if hist.get('share'):
                 names = names_of(step)
@@ -1003,6 +1025,8 @@ def check_history(hist):
                 out.append((f, 'call %d of %d (changed since the previous call: %s): %s' % (i + 1, len(hist['steps']), step.get('change', '-'), m)))
     finally:
         _SHARED['motifs'] = None
+        _SHARED['dir'] = None
+        keep.cleanup()
     return out, stats
 
 
